@@ -18,6 +18,7 @@ import Proofs.C12_Cov
 import Proofs.C12_Analysis
 import Proofs.C12_Units
 import Proofs.C12_Miller
+import Proofs.C12_Source
 import Mathlib.Tactic.Ring
 import Mathlib.Tactic.LinearCombination
 import Mathlib.Tactic.FieldSimp
@@ -1015,5 +1016,225 @@ example : dot (F := ℂ) (fun i => if i = 0 then 1 else 0) (fun i => if i = 0 th
 example : (1 : ℂ) + Complex.I * 1 ∈ Complex.slitPlane := by
   rw [Complex.mem_slitPlane_iff]; left; simp
 example : (1 : ℝ) ≠ 0 ∧ (3 : ℝ) ≠ 0 ∧ (1 : ℝ) - 1 / 4 ≠ 0 ∧ (1 : ℝ) + 1 / 4 ≠ 0 ∧ (1 : ℝ) * 1 + 2 * 2 ≠ 0 := by norm_num
+
+/-! ### API level (round 5): option handling, refusals and the end-to-end statements for every accepted input -/
+section entry
+
+/-- **which option combinations `VolterraDislocation.solve` refuses** (all with `AssertionError`): Miller indices given
+    by halves, Miller indices together with `transform` / `axes`, `transform` together with `axes` — and nothing else. -/
+theorem routeOf_refuses_iff {M : Type} (ξ hkl : Bool) (t a : Option M) :
+    (∃ e, routeOf ξ hkl t a = .error e)
+      ↔ (ξ ≠ hkl) ∨ ((ξ = true ∨ hkl = true) ∧ (t.isSome = true ∨ a.isSome = true)) ∨ (t.isSome = true ∧ a.isSome = true) := by
+  cases ξ <;> cases hkl <;> cases t <;> cases a <;> simp [routeOf]
+
+/-- every refusal of the option handling is an `AssertionError`. -/
+theorem routeOf_error_class {M : Type} (ξ hkl : Bool) (t a : Option M) (e : String)
+    (h : routeOf ξ hkl t a = .error e) : e = "assert" := by
+  cases ξ <;> cases hkl <;> cases t <;> cases a <;> simp [routeOf] at h <;> exact h.symm
+
+/-- `axes=` is an alias of `transform=`; what is accepted is never left unchecked (`raw`). -/
+theorem routeOf_axes_alias {M : Type} (x : M) :
+    routeOf false false none (some x) = routeOf false false (some x) none
+      ∧ routeOf false false (some x) none = .ok (.checked x) := ⟨rfl, rfl⟩
+
+theorem routeOf_never_raw {M : Type} (ξ hkl : Bool) (t a : Option M) (x : M) :
+    routeOf ξ hkl t a ≠ .ok (.raw x) := by
+  cases ξ <;> cases hkl <;> cases t <;> cases a <;> simp [routeOf]
+
+/-- the same statements about the option handling AS IT STANDS IN THE SOURCE (generated `route`). -/
+theorem gen_route_refuses_iff {M : Type} (ξ hkl : Bool) (t a : Option M) :
+    (∃ e, Gen.Stroh.route ξ hkl t a = .error e)
+      ↔ (ξ ≠ hkl) ∨ ((ξ = true ∨ hkl = true) ∧ (t.isSome = true ∨ a.isSome = true)) ∨ (t.isSome = true ∧ a.isSome = true) := by
+  rw [gen_route_eq_model]; exact routeOf_refuses_iff ξ hkl t a
+
+/-- the Voigt getter `ElasticConstants.Cijkl` gives both minor symmetries for ANY 6x6 array. -/
+theorem cijkl_minor {F : Type} (c : Fin 6 → Fin 6 → F) (i j k l : Fin 3) :
+    cijkl c i j k l = cijkl c i j l k ∧ cijkl c i j k l = cijkl c j i k l := by
+  have h : ∀ a b : Fin 3, voigt a b = voigt b a := by decide
+  simp only [cijkl, h k l, h i j, and_self]
+
+section ord
+variable {K : Type} [Field K] [LinearOrder K] [IsStrictOrderedRing K]
+
+theorem listMax3_ge (a x y : K) : a ≤ listMax a [x, y] ∧ x ≤ listMax a [x, y] ∧ y ≤ listMax a [x, y] := by
+  simp only [listMax, List.foldl]
+  split_ifs <;> refine ⟨?_, ?_, ?_⟩ <;> linarith
+
+theorem maxAbs3_ge (b : Vec K) (i : Fin 3) : |b i| ≤ maxAbs3 b := by
+  have h := listMax3_ge (absF (b 0)) (absF (b 1)) (absF (b 2))
+  simp only [absF_eq_abs] at h
+  unfold maxAbs3; simp only [absF_eq_abs]
+  fin_cases i
+  · exact h.1
+  · exact h.2.1
+  · exact h.2.2
+
+/-- the relative clean-up moves an entry by at most `tol · big` (`big` any bound of `|v|`, e.g. the largest magnitude). -/
+theorem chop_close (tol big v : K) (ht : 0 ≤ tol) (hb : |v| ≤ big) : |chop tol big v - v| ≤ tol * big := by
+  have hb0 : 0 ≤ big := le_trans (abs_nonneg v) hb
+  unfold chop
+  split_ifs with h
+  · simp only [Bool.and_eq_true, decide_eq_true_eq] at h
+    rw [zero_sub, abs_neg]
+    rcases hb0.lt_or_eq with hpos | h0
+    · have : |v / big| ≤ tol := abs_le.2 h
+      rw [abs_div, abs_of_pos hpos, div_le_iff₀ hpos] at this
+      exact this
+    · rw [← h0] at hb ⊢
+      simpa using hb
+  · simp only [sub_self, abs_zero]
+    exact mul_nonneg ht hb0
+
+/-- **what the stored Burgers vector is**: the requested crystal vector taken to Cartesian coordinates and rotated by
+    the orientation matrix, each component within `tol · max|b|` of it (the round-off clean-up zeroes, never invents). -/
+theorem orientB_within_tol (tol : K) (ht : 0 ≤ tol) (T vects : Mat K) (b : Vec K) (i : Fin 3) :
+    |orientB tol T vects b i - matVec T (crystalToCart vects b) i|
+      ≤ tol * maxAbs3 (matVec T (crystalToCart vects b)) :=
+  chop_close tol _ _ ht (maxAbs3_ge _ i)
+
+/-- ... and for the clean-up AS CODED (generated `orientB`). -/
+theorem gen_orientB_within_tol (tol : K) (ht : 0 ≤ tol) (T vects : Mat K) (b : Vec K) (i : Fin 3) :
+    |Gen.Stroh.orientB tol T vects b i - matVec T (crystalToCart vects b) i|
+      ≤ tol * maxAbs3 (matVec T (crystalToCart vects b)) := by
+  rw [gen_orientB_eq_model]; exact orientB_within_tol tol ht T vects b i
+
+/-- **what an accepted call of `VolterraDislocation.solve` went through, in order** (and conversely: these conditions
+    make it accept): both axes pass `axis_value`, `m ⊥ n`, the option handling yields a transform, `axes_check` inside
+    `ElasticConstants.transform` accepts it; the outputs are the transform, the rotated cleaned stiffness, the rotated
+    cleaned Burgers vector. -/
+theorem baseSolve_ok_iff (a : BaseIn K) (out : BaseOut K) :
+    baseSolve a = .ok out ↔
+      axisOk a.tol a.cart a.mStr a.m = true ∧ axisOk a.tol a.cart a.nStr a.n = true
+      ∧ (-a.tol ≤ dot a.m a.n ∧ dot a.m a.n ≤ a.tol)
+      ∧ ∃ T T2, baseTransform a = .ok T ∧ axesCheck a.tolAx a.rtol T a.norms2 = .ok T2
+          ∧ out = ⟨T, orientC a.tolAx T2 a.c, orientB a.tol T a.vects a.b⟩ := by
+  unfold baseSolve
+  cases hm : axisOk a.tol a.cart a.mStr a.m <;> cases hn : axisOk a.tol a.cart a.nStr a.n <;>
+    by_cases hp1 : -a.tol ≤ dot a.m a.n <;> by_cases hp2 : dot a.m a.n ≤ a.tol <;>
+    simp [hp1, hp2] <;>
+    (cases hT : baseTransform a with
+     | error e => simp
+     | ok T =>
+       cases hT2 : axesCheck a.tolAx a.rtol T a.norms2 with
+       | error e => simp [hT2]
+       | ok T2 => simp [hT2]; exact eq_comm)
+
+/-- refusal classes, in the order of the source: axis checks and option handling are `AssertionError`s and come before
+    everything else. -/
+theorem baseSolve_assert_first (a : BaseIn K)
+    (h : axisOk a.tol a.cart a.mStr a.m = false ∨ axisOk a.tol a.cart a.nStr a.n = false
+          ∨ ¬ (-a.tol ≤ dot a.m a.n ∧ dot a.m a.n ≤ a.tol)) :
+    baseSolve a = .error "assert" := by
+  unfold baseSolve
+  rcases h with h | h | h
+  · simp [h]
+  · cases hm : axisOk a.tol a.cart a.mStr a.m <;> simp [h]
+  · cases hm : axisOk a.tol a.cart a.mStr a.m <;> cases hn : axisOk a.tol a.cart a.nStr a.n <;> simp
+    intro h1 h2; exact absurd ⟨h1, h2⟩ h
+
+/-- `axes=` and `transform=` are interchangeable for the whole call. -/
+theorem baseSolve_axes_alias (a : BaseIn K) (x : Mat K) (ht : a.transform = none) (ha : a.axes = some x)
+    (hξ : a.ξ = false) (hh : a.hkl = false) :
+    baseSolve a = baseSolve { a with transform := some x, axes := none } := by
+  unfold baseSolve baseTransform
+  simp only [ht, ha, hξ, hh, routeOf]
+
+end ord
+
+variable {F : Type} [Field F] [CharZero F]
+
+/-- the problem `Stroh.solve` works on after an accepted call of the base class. -/
+def entrySetup {F : Type} (m n : Vec F) (out : BaseOut F) : Setup F := ⟨cijkl out.c, m, n, out.b⟩
+
+/-- **end to end, stress = C : strain for every accepted input** — no symmetry hypothesis left: the medium a solved
+    object holds is `cijkl` of a 6x6 array, which has the minor symmetry by construction. -/
+theorem entry_stress_is_C_strain (pi I : F) (m n : Vec F) (out : BaseOut F) (μ : Fin 6 → Mode F) (k : Fin 6 → F)
+    (x : Vec F) (i j : Fin 3) :
+    stressAt pi I (entrySetup m n out) μ k x i j
+      = sum3 fun k' => sum3 fun l => cijkl out.c i j k' l * strainAt pi I (entrySetup m n out) μ k x k' l :=
+  stress_is_C_strain_at pi I (entrySetup m n out) μ k (fun i j k l => (cijkl_minor out.c i j k l).1) x i j
+
+/-- **end to end, equilibrium for every accepted input**: each `1/η²` coefficient of `∂ⱼσᵢⱼ` vanishes for every mode that
+    solves the eigenproblem of the coded `N` built from the stored medium. -/
+theorem entry_stress_div_free (pi I : F) (m n : Vec F) (out : BaseOut F) (nnInv : Mat F) (μ : Fin 6 → Mode F)
+    (k : Fin 6 → F) (hinv : ∀ i j, matMul (entrySetup m n out).nn nnInv i j = kron i j) (a : Fin 6)
+    (htop : ∀ i, eigResTop (entrySetup m n out) nnInv (μ a) i = 0)
+    (hbot : ∀ i, eigResBot (entrySetup m n out) nnInv (μ a) i = 0) (i : Fin 3) :
+    (sum3 fun j => stressCoef pi I (entrySetup m n out) μ k a i j * mpn (entrySetup m n out) (μ a) j) = 0 :=
+  stress_div_free_of_eigen pi I (entrySetup m n out) nnInv μ k (fun i j k l => (cijkl_minor out.c i j k l).2) hinv a htop hbot i
+
+/-- **end to end, the jump is the stored Burgers vector** (closure relation = the solver's first self-check). -/
+theorem entry_burgers_jump (pi I : F) (m n : Vec F) (out : BaseOut F) (μ : Fin 6 → Mode F) (k : Fin 6 → F)
+    (hpi : pi ≠ 0) (hI : I ≠ 0) (hcomp : ∀ i j, chkAL μ k i j = kron i j) (i : Fin 3) :
+    dispJump pi I (entrySetup m n out) μ k i = out.b i :=
+  burgers_closure pi I (entrySetup m n out) μ k hpi hI hcomp i
+
+/-! the same three clauses for the field methods AS CODED (generated from `Stroh.py` on every run) -/
+
+/-- `Stroh.stress(x) = C : Stroh.strain(x)` for the generated methods. -/
+theorem gen_stress_is_C_strain (pi I : F) (s : Setup F) (μ : Fin 6 → Mode F) (k : Fin 6 → F)
+    (hC : ∀ i j k l, s.C i j k l = s.C i j l k) (x : Vec F) (i j : Fin 3) :
+    Gen.Stroh.stress pi I s.m s.n s.b s.C (modeP μ) k (modeA μ) (modeL μ) x i j
+      = sum3 fun k' => sum3 fun l => s.C i j k' l
+          * Gen.Stroh.strain pi I s.m s.n s.b s.C (modeP μ) k (modeA μ) (modeL μ) x k' l := by
+  rw [gen_stress_eq_model, gen_strain_eq_model]; exact stress_is_C_strain_at pi I s μ k hC x i j
+
+/-- the generated `Stroh.displacement` jumps by exactly `b` when every `ln ηₐ` jumps by `updnₐ·2πi` and the generated
+    first self-check holds exactly. -/
+theorem gen_displacement_jump (pi I : F) (s : Setup F) (μ : Fin 6 → Mode F) (k sk : Fin 6 → F)
+    (hpi : pi ≠ 0) (hI : I ≠ 0) (hcomp : ∀ i j, Gen.Stroh.chk1 k sk (modeA μ) (modeL μ) i j = kron i j) (i : Fin 3) :
+    Gen.Stroh.displacement pi I s.m s.n s.b s.C (modeP μ) k (modeA μ) (modeL μ)
+        (fun a => updn a * (((2 : Nat) : F) * pi * I)) i = s.b i := by
+  rw [gen_displacement_eq_model]
+  rw [(gen_checks_eq_model μ k sk).1] at hcomp
+  exact burgers_closure pi I s μ k hpi hI hcomp i
+
+/-- the generated strain and stress fall off as `1/r`. -/
+theorem gen_falls_as_inv_r (pi I : F) (s : Setup F) (μ : Fin 6 → Mode F) (k : Fin 6 → F) (x : Vec F) (t : F)
+    (ht : t ≠ 0) (hx : ∀ a, eta s (μ a) x ≠ 0) (i j : Fin 3) :
+    Gen.Stroh.strain pi I s.m s.n s.b s.C (modeP μ) k (modeA μ) (modeL μ) (fun c => t * x c) i j
+        = Gen.Stroh.strain pi I s.m s.n s.b s.C (modeP μ) k (modeA μ) (modeL μ) x i j / t
+      ∧ Gen.Stroh.stress pi I s.m s.n s.b s.C (modeP μ) k (modeA μ) (modeL μ) (fun c => t * x c) i j
+        = Gen.Stroh.stress pi I s.m s.n s.b s.C (modeP μ) k (modeA μ) (modeL μ) x i j / t := by
+  simp only [gen_stress_eq_model, gen_strain_eq_model]; exact falls_as_inv_r pi I s μ k x t ht hx i j
+
+/-- the generated `K_tensor` is symmetric. -/
+theorem gen_K_symm (I : F) (μ : Fin 6 → Mode F) (k : Fin 6 → F) (i j : Fin 3) :
+    Gen.Stroh.kTensor I k (modeL μ) i j = Gen.Stroh.kTensor I k (modeL μ) j i := by
+  rw [gen_kTensor_eq_model]; exact K_symm I μ k i j
+
+end entry
+
+/-! non-vacuity for the API-level theorems -/
+def exBaseIn : BaseIn ℚ where
+  tol := 1 / 100000000
+  tolAx := 1 / 100000000
+  rtol := 1 / 100000
+  cart := true
+  mStr := false
+  nStr := true
+  m := fun i => if i = 2 then 1 else 0
+  n := fun i => if i = 0 then 1 else 0
+  ξ := false
+  hkl := false
+  transform := none
+  axes := some fun i j => if (i, j) = (0, 1) then -2 else if (i, j) = (1, 0) then 3 else if (i, j) = (2, 2) then 5 else 0
+  norms := fun i => if i = 0 then 2 else if i = 1 then 3 else 5
+  norms2 := fun _ => 1
+  nAxis := fun _ => 0
+  ξAxis := fun _ => 0
+  vects := fun i j => if i = j then 2 else 0
+  c := fun a b => if a = b then (if a.val < 3 then 3 else 1) else if a.val < 3 ∧ b.val < 3 then 1 else 0
+  b := fun i => if i = 0 then 1 / 2 else 0
+
+example : (match baseSolve exBaseIn with | .ok out => out.b 1 == 1 && out.b 0 == 0 && out.T 0 1 == -1 | .error _ => false) = true := by
+  decide +kernel
+example : (match baseSolve { exBaseIn with transform := some fun i j => if i = j then 1 else 0 } with
+    | .error e => e == "assert" | .ok _ => false) = true := by
+  decide +kernel
+example : routeOf (M := Unit) true false none none = .error "assert" ∧ routeOf (M := Unit) true true none none = .ok .miller :=
+  ⟨rfl, rfl⟩
+example : |chop (1 / 10 : ℚ) 4 (1 / 5) - 1 / 5| ≤ 1 / 10 * 4 ∧ chop (1 / 10 : ℚ) 4 (1 / 5) = 0 := by
+  constructor <;> decide +kernel
 
 end Atomman.C12
